@@ -28,14 +28,51 @@ def J2(p, cls, lens, lastnl=1, bufcap=64):
             "unwind": 40, "reach": ["end"] if feas else []}
 
 
+def JI(p, cls, lens, at, form, k=2, plen=2, bufcap=64):
+    feas = p0_feasible(cls) and 3 not in cls[:at]
+    return {"name": "ins-p%d-c%s-l%s-at%d-f%d-k%d-pl%d-b%d" % (p, "".join(map(str, cls)), "".join(map(str, lens)), at, form, k, plen, bufcap),
+            "func": "VerifHarness_Insert",
+            "params": {"n": len(cls), "p": p, "acls": oct_digits(cls), "lens": oct_digits(lens), "at": at, "form": form, "k": k, "plen": plen, "bufcap": bufcap},
+            "unwind": 40, "reach": ["end"] if feas else []}
+
+
+VARIANT_SHAPES = [[1, 0, 0], [1, 1, 0], [1, 0, 1], [3, 0, 0], [1, 2, 0], [0, 1, 0], [2, 1, 1], [1, 0, 3]]
+
+
 def jobs(tier):
     out = []
+    shapes = lambda n: [list(c) for c in itertools.product(range(4), repeat=n)]
     if tier == "quick":
-        for cls in itertools.product(range(4), repeat=4):
-            out.append(J2(0, list(cls), [2] * 4))
-        for cls in itertools.product(range(4), repeat=3):
-            out.append(J2(1, list(cls), [2] * 3))
+        out += [J2(0, c, [2] * 4) for c in shapes(4)]
+        out += [J2(1, c, [2] * 3) for c in shapes(3)]
+        for c in VARIANT_SHAPES:
+            for p in (0, 1):
+                out.append(J2(p, c, [0, 1, 3], lastnl=0, bufcap=2))
+                out.append(J2(p, c, [3, 0, 1], lastnl=1, bufcap=3))
+        for c in shapes(2):
+            for at in range(3):
+                for form, k in ((0, 2), (1, 0), (2, 0)):
+                    out.append(JI(0, c, [2, 2], at, form, k))
+        for c in ([0, 0], [1, 0], [0, 1], [2, 1]):
+            for at in range(3):
+                for form, k in ((0, 2), (1, 0)):
+                    out.append(JI(1, c, [2, 2], at, form, k))
         return out
+    # thorough
+    out += [J2(0, c, [2] * 5) for c in shapes(5)]
+    out += [J2(1, c, [2] * 4) for c in shapes(4)]
+    for c in shapes(3):
+        for p in (0, 1):
+            out.append(J2(p, c, [0, 1, 3], lastnl=0, bufcap=2))
+            out.append(J2(p, c, [3, 0, 1], lastnl=1, bufcap=3))
+            out.append(J2(p, c, [1, 1, 1], lastnl=0, bufcap=1))
+    for c in shapes(3):
+        for at in range(4):
+            for form, k in ((0, 1), (0, 2), (1, 0), (2, 0)):
+                for p in (0, 1):
+                    if form == 2 and p == 1:
+                        continue
+                    out.append(JI(p, c, [2, 1, 2], at, form, k, plen=3 if form == 2 else 2))
     return out
 
 
